@@ -1109,7 +1109,10 @@ struct Outcome {
     late_joins_overlapped: u64,
 }
 
-pub(super) fn diff(old: &BTreeMap<Key, Val>, new: &BTreeMap<Key, Val>) -> Option<(&'static str, Vec<String>)> {
+pub(super) fn diff(
+    old: &BTreeMap<Key, Val>,
+    new: &BTreeMap<Key, Val>,
+) -> Option<(&'static str, Vec<String>)> {
     let mut stale = Vec::new();
     let mut missing = Vec::new();
     let mut attrs = Vec::new();
@@ -1206,7 +1209,10 @@ async fn run_history_inner(cfg: &ObsCfg, ops: &[Op], listener: &TcpListener) -> 
         // coming up it has no session to reset, and which policy the initial dump uses is
         // not something the statement fixes.  Such steps are applied before the session
         // comes up; only RIB-side operations race with it.
-        let (cfg_steps, during): (Vec<Op>, Vec<Op>) = during.iter().cloned().partition(|o| matches!(o, Op::ExportPolicy { .. }));
+        let (cfg_steps, during): (Vec<Op>, Vec<Op>) = during
+            .iter()
+            .cloned()
+            .partition(|o| matches!(o, Op::ExportPolicy { .. }));
         for o in &cfg_steps {
             if world.apply(o) {
                 *out.applied.entry(o.kind()).or_insert(0) += 1;
@@ -1501,7 +1507,9 @@ pub(super) fn recreated_after_refresh(cfg: &ObsCfg, ops: &[Op], name: &str) -> b
         for (i, o) in ops.iter().enumerate().skip(r + 1) {
             let removes = match o {
                 Op::Withdraw { pfx, .. } => is(*pfx),
-                Op::PeerDown { peer } | Op::StalePurge { peer } | Op::LlgrPurge { peer } => announcers.contains(peer),
+                Op::PeerDown { peer } | Op::StalePurge { peer } | Op::LlgrPurge { peer } => {
+                    announcers.contains(peer)
+                }
                 _ => false,
             };
             if removes {
@@ -1510,7 +1518,11 @@ pub(super) fn recreated_after_refresh(cfg: &ObsCfg, ops: &[Op], name: &str) -> b
             }
         }
         if let Some(i) = removed_at {
-            if ops.iter().skip(i + 1).any(|o| matches!(o, Op::Announce { pfx, .. } if is(*pfx))) {
+            if ops
+                .iter()
+                .skip(i + 1)
+                .any(|o| matches!(o, Op::Announce { pfx, .. } if is(*pfx)))
+            {
                 return true;
             }
         }
@@ -1585,15 +1597,33 @@ fn run() {
             let b = first_peer + ((h >> 16) as usize) % (N_PEERS - first_peer);
             let p = ((h >> 24) as usize) % N_PFX;
             let q = (p + 1 + ((h >> 32) as usize) % (N_PFX - 1)) % N_PFX;
-            let mut block: Vec<Op> = (first_peer..N_PEERS).map(|peer| Op::PeerDown { peer }).collect();
+            let mut block: Vec<Op> = (first_peer..N_PEERS)
+                .map(|peer| Op::PeerDown { peer })
+                .collect();
             block.extend([
                 Op::Deliver { k: 100_000 },
                 Op::Flush,
-                Op::Announce { peer: a, pfx: p, pid: 0, attr: 0, nh: 0 },
+                Op::Announce {
+                    peer: a,
+                    pfx: p,
+                    pid: 0,
+                    attr: 0,
+                    nh: 0,
+                },
                 Op::Deliver { k: 100_000 },
                 Op::Flush,
-                Op::Withdraw { peer: a, pfx: p, pid: 0 },
-                Op::Announce { peer: b, pfx: q, pid: 0, attr: 1, nh: 0 },
+                Op::Withdraw {
+                    peer: a,
+                    pfx: p,
+                    pid: 0,
+                },
+                Op::Announce {
+                    peer: b,
+                    pfx: q,
+                    pid: 0,
+                    attr: 1,
+                    nh: 0,
+                },
                 Op::Deliver { k: 100_000 },
                 Op::Flush,
                 Op::Check,
@@ -1730,7 +1760,9 @@ fn run() {
                 // (1) structure: after a refresh-type operation was issued, N was removed
                 //     entirely and announced again (that is what makes the refresh walk read
                 //     the new incarnation while the events of the old one are still queued)
-                let recreated = missing.iter().any(|m| recreated_after_refresh(&cfg, &cur, m));
+                let recreated = missing
+                    .iter()
+                    .any(|m| recreated_after_refresh(&cfg, &cur, m));
                 // (2) control experiment: the same history with every refresh running on an
                 //     empty event queue (no read-ahead possible) must NOT fail; a defect that
                 //     does not need the read-ahead keeps its generic signature
